@@ -215,6 +215,50 @@ func assertDischarged(p *Prog, T *Terms, x *ssa.TypeAssert) (bool, string) {
 			if pt, ok := fa.X.Type().Underlying().(*types.Pointer); ok {
 				named, _ = pt.Elem().(*types.Named)
 			}
+			// context of the repo callers: the asserted member of the receiver/parameter, per call site
+			if prm, isParam := fa.X.(*ssa.Parameter); isParam && st != nil {
+				f := x.Parent()
+				idx := -1
+				for i, q := range f.Params {
+					if q == prm {
+						idx = i
+					}
+				}
+				sites := 0
+				okAll := true
+				var bad []string
+				for _, g := range p.Funcs {
+					for _, cs := range callsIn(g, false) {
+						if cs.Common.StaticCallee() != f || idx >= len(cs.Common.Args) {
+							continue
+						}
+						sites++
+						a := unwrapAlloc(cs.Common.Args[idx])
+						if a == nil {
+							okAll = false
+							bad = append(bad, p.Pos(cs.Instr.Pos())+": receiver is not a local literal")
+							continue
+						}
+						vals := fieldStores(a)[st.Field(fa.Field).Name()]
+						for _, v := range vals {
+							if d := dynType(v); d == nil || !types.Identical(d, x.AssertedType) {
+								okAll = false
+								bad = append(bad, p.Pos(cs.Instr.Pos())+": member holds "+typeStr(d))
+							}
+						}
+						if len(vals) == 0 {
+							okAll = false
+							bad = append(bad, p.Pos(cs.Instr.Pos())+": member not set (nil interface)")
+						}
+					}
+				}
+				if sites > 0 && okAll {
+					return true, fmt.Sprintf("in the context of every repository call site (%d) the member was built from %s; calls by users on other values are outside the analysed program", sites, typeStr(x.AssertedType))
+				}
+				if sites > 0 {
+					return false, "a repository call site passes a value whose member has another dynamic type: " + strings.Join(bad, "; ")
+				}
+			}
 			if st != nil && named != nil {
 				var bad []string
 				nst := 0
